@@ -5,7 +5,7 @@ Import ListNotations.
 Open Scope Z_scope.
 
 (* assigns_to_counts: a[np.where(a != -1)] *)
-Definition strip (t : list Z) : list Z := filter (fun x => negb (x =? -1)) t.
+Definition strip (t : list Z) : list Z := filter gen_keep t.
 
 (* np.row_stack((start_states, end_states)) -> columns are the pairs *)
 Definition traj_pairs (sliding : bool) (lag : Z) (t : list Z) : list (Z * Z) :=
@@ -24,7 +24,7 @@ Definition zmax_list (l : list Z) : Z := fold_left Z.max l (-1).
 Definition n_states (maxn : option Z) (trjs : list (list Z)) : Z :=
   match maxn with
   | Some n => n
-  | None => zmax_list (flat_map strip trjs) + 1
+  | None => gen_infer_n_states (zmax_list (flat_map strip trjs))
   end.
 
 Definition zseq (n : Z) : list Z := map Z.of_nat (seq 0 (Z.to_nat n)).
@@ -38,3 +38,8 @@ Definition counts_matrix (sliding : bool) (lag : Z) (maxn : option Z) (trjs : li
   if forallb (fun p => (0 <=? fst p) && (fst p <? n) && (0 <=? snd p) && (snd p <? n)) ps
   then Some (map (fun i => map (fun j => count_pair ps i j) (zseq n)) (zseq n))
   else None.
+
+(* the public function: the lag validation of the source in front of the matrix construction *)
+Definition assigns_to_counts (sliding : bool) (lag : Z) (maxn : option Z) (trjs : list (list Z))
+  : option (list (list nat)) :=
+  if gen_lag_invalid lag then None else counts_matrix sliding lag maxn trjs.
